@@ -19,7 +19,8 @@ CHUNK = 1
 
 def cases(tier):
     return fixfam.fix_cases(
-        tier, rulesets_raw=("layout", "all", "format"), rulesets_yaml=("all",) if tier == "quick" else ("all", "format")
+        tier, rulesets_raw=("layout", "all", "format"), rulesets_yaml=("all",) if tier == "quick" else ("all", "format"),
+        rulesets_fixtures=("all",),
     )
 
 
